@@ -321,6 +321,73 @@ def _shrink_history(clause: Clause, seed, n, sub, cap):
     return None
 
 
+# ---- fuzz (atheris subprocess) ---------------------------------------------------------------
+
+
+def _collect_fuzz(clause: Clause, tier, seed, shard, nshards, res: TaskResult):
+    """Coverage-guided campaign in a subprocess (vf/fuzz/target.py); buckets it reports are re-run through
+    the clause's plain oracle, so only reproducible deviations count and the replay file is a plain case."""
+    import shutil
+    import subprocess
+
+    spec = clause.fuzz
+    runs = spec["runs"].get(tier, 0)
+    if runs <= 0:
+        return
+    deps_dir = os.path.join(VERIF_DIR, ".deps")
+    env = dict(os.environ, PYTHONPATH=VERIF_DIR + os.pathsep + deps_dir, PYTHONHASHSEED="0", PYTHONDONTWRITEBYTECODE="1")
+    probe = subprocess.run([sys.executable, "-c", "import atheris"], env=env, capture_output=True)
+    if probe.returncode != 0:
+        subprocess.run([sys.executable, "-m", "pip", "install", "--no-index", "--find-links", "/opt/veriftools/wheels", "--target", deps_dir, "atheris"],
+                       env=dict(os.environ, PIP_NO_INDEX="1"), capture_output=True)
+        probe = subprocess.run([sys.executable, "-c", "import atheris"], env=env, capture_output=True)
+    if probe.returncode != 0:
+        res.notes.append("atheris not installable in this sandbox: fuzz clause skipped (the Hypothesis clauses still decide the property)")
+        return
+    work = os.path.join(VERIF_DIR, ".work", f"fuzz-{clause.id}-{os.getpid()}-{shard}")
+    shutil.rmtree(work, ignore_errors=True)
+    os.makedirs(work, exist_ok=True)
+    out = os.path.join(work, "result.json")
+    seeded = spec.get("seeded", 3) if shard % 2 == 1 else 0  # even shards start from an empty corpus, odd shards from valid units
+    cmd = [sys.executable, "-B", "-m", "vf.fuzz.target", "--prop", spec["prop"], "--out", out, "--work", work, "--runs", str(runs), "--seed", str(seed % (2**31 - 1) + 1),
+           "--seeded", str(seeded)]
+    try:
+        try:
+            p = subprocess.run(cmd, cwd=VERIF_DIR, env=env, capture_output=True, text=True, timeout=runs / 500 + 600)
+            rc = p.returncode
+        except subprocess.TimeoutExpired:
+            rc = None
+            res.notes.append("fuzz campaign hit its wall-clock cap: inconclusive beyond what it reported")
+        if not os.path.exists(out):
+            raise HarnessError(f"fuzz target produced no result (rc={rc}): {(p.stderr if rc is not None else '')[-800:]}")
+        r = json.load(open(out))
+        if "harness:exception" in r["buckets"]:
+            raise HarnessError(f"fuzz target harness exception: {r['buckets']['harness:exception']['detail']}")
+        res.cases += r["executions"]
+        res.evaluations += r["executions"]
+        res.nontrivial += r["distinct_nontrivial"]
+        res.digests[f"fuzz-{clause.id}-{shard}"] = r["distinct_nontrivial"]
+        for k, v in r["per_entry"].items():
+            res.classes[k] = res.classes.get(k, 0) + v
+        res.classes["corpus: seeded" if seeded else "corpus: empty"] = r["executions"]
+        res.samples.extend(r["samples"][: MAX_SAMPLES_PER_CLAUSE - len(res.samples)])
+        res.notes.append(json.dumps({"shard": shard, "seeded_corpus": seeded, "executions_at_least": r["executions"], "runs_requested": runs, "in_domain": r.get("in_domain"),
+                                     "corpus_files_at_end": r["corpus_files"], "buckets_reported": sorted(r["buckets"]), "libfuzzer_seed": seed % (2**31 - 1) + 1}))
+        for sig, b in r["buckets"].items():
+            devs = clause.run_check(b["case"])
+            if not devs:
+                res.notes.append(f"fuzz bucket {sig} did not reproduce through the plain oracle; ignored")
+                continue
+            for d in devs:
+                s2 = f"{clause.id}|{d.sub}"
+                size = len(canon(b["case"]))
+                cur = res.buckets.get(s2)
+                if cur is None or size < cur["size"]:
+                    res.buckets[s2] = {"count": b["count"], "case": b["case"], "size": size, "detail": d.detail, "shrunk": True}
+    finally:
+        shutil.rmtree(work, ignore_errors=True)
+
+
 # ---- task runner -----------------------------------------------------------------------------
 
 
@@ -344,11 +411,13 @@ def run_task(args):
             _collect_enum(clause, tier, seed, shard, nshards, res)
         elif clause.kind == "history":
             _collect_history(clause, seed, n, res)
+        elif clause.kind == "fuzz":
+            _collect_fuzz(clause, tier, seed, shard, nshards, res)
         else:
             raise HarnessError(f"unknown clause kind {clause.kind}")
         # shrink every bucket not listed as a known finding
         for sig, b in res.buckets.items():
-            if sig in known_sigs or clause.kind == "enum":
+            if sig in known_sigs or clause.kind in ("enum", "fuzz"):
                 continue
             sub = sig.split("|", 1)[1]
             if clause.kind == "given":
@@ -417,7 +486,7 @@ def run_property(prop_id: str, tier: str, base_seed: int, only: Optional[str] = 
     prop = load_property(prop_id)
     known = read_known_findings(prop_id)
     shrink_cap = 150 if tier == "quick" else 1500
-    clauses = [c for c in prop.clauses if only is None or re.search(only, c.id)]
+    clauses = [c for c in prop.clauses if (only is None or re.search(only, c.id)) and tier in c.tiers]
     if not clauses:
         raise HarnessError(f"no clause matches {only}")
     nreg, reg_viol = run_regressions(prop, known)
@@ -452,7 +521,7 @@ def run_property(prop_id: str, tier: str, base_seed: int, only: Optional[str] = 
     for r in results:
         pc = per_clause.setdefault(
             r["clause_id"],
-            {"evaluations": 0, "cases": 0, "nontrivial": 0, "digests": {}, "classes": {}, "samples": [], "wall_s": 0.0, "shards": 0},
+            {"evaluations": 0, "cases": 0, "nontrivial": 0, "digests": {}, "classes": {}, "samples": [], "wall_s": 0.0, "shards": 0, "notes": []},
         )
         pc["evaluations"] += r["evaluations"]
         pc["cases"] += r["cases"]
@@ -460,6 +529,7 @@ def run_property(prop_id: str, tier: str, base_seed: int, only: Optional[str] = 
         pc["digests"].update(r["digests"])
         overflow = overflow or r["digest_overflow"]
         pc["wall_s"] += r["wall"]
+        pc["notes"].extend(r.get("notes") or [])
         pc["shards"] += 1
         for k, v in r["classes"].items():
             pc["classes"][k] = pc["classes"].get(k, 0) + v
@@ -484,7 +554,7 @@ def run_property(prop_id: str, tier: str, base_seed: int, only: Optional[str] = 
         for req in c.required:
             if pc is None or pc["classes"].get(req, 0) == 0:
                 vacuous.append(f"{c.id}: required class '{req}' never generated")
-        if pc is None or pc["cases"] == 0:
+        if (pc is None or pc["cases"] == 0) and c.kind != "fuzz":
             vacuous.append(f"{c.id}: no cases generated")
 
     # verdict ----------------------------------------------------------------------------
@@ -554,6 +624,8 @@ def _write_evidence(prop, tier, seed, clauses, per_clause, buckets, known, viola
             "shards": pc["shards"],
             "cpu_s": round(pc["wall_s"], 2),
         }
+        if pc["notes"]:
+            pcs[c.id]["notes"] = pc["notes"]
         if c.exhaustive_note:
             exhaustive_sub.append({"clause": c.id, "what": c.exhaustive_note, "cases": pc["cases"]})
         for s in pc["samples"][:2]:
